@@ -202,13 +202,23 @@ fn worker(args: &[String]) -> i32 {
             for k in 0..r.sites[1].min(32) {
                 variants.push(crate::program::Fault { site: 4, nth: k, errno: 0 });
             }
-            for f in variants {
+            let mut sets: Vec<Vec<crate::program::Fault>> = variants.iter().map(|f| vec![f.clone()]).collect();
+            // thorough tier: pairs of faults for short histories
+            if std::env::var("VERIF_TIER_INTERNAL").map(|t| t == "thorough").unwrap_or(false) && variants.len() <= 10 && idx % 4 == 0 {
+                for a in 0..variants.len() {
+                    for b in a + 1..variants.len() {
+                        sets.push(vec![variants[a].clone(), variants[b].clone()]);
+                    }
+                }
+            }
+            for fs in sets {
                 if !p.faults.is_empty() {
                     break; // this base program already carries random faults
                 }
                 let mut q = p.clone();
+                let f = fs[0].clone();
                 note(idx, Some(&f));
-                q.faults = vec![f];
+                q.faults = fs;
                 unsafe {
                     libc::alarm(20);
                 }
@@ -346,9 +356,10 @@ fn replay(path: &str) -> i32 {
 
 fn tier_runs(prop: &str, tier: &str) -> u64 {
     let q = match prop {
-        "C16" => 60_000,
-        "C15" => 24_000,
-        _ => 160_000,
+        "C16" => 200_000,
+        "C15" => 60_000,
+        "C17" | "C10" | "C08" => 400_000,
+        _ => 600_000,
     };
     match tier {
         "thorough" => q * 25,
@@ -372,6 +383,7 @@ fn check(prop: &str, tier: &str) -> i32 {
     let spawn = |w: u64, from: u64, cnt: u64, gen: u32| -> Result<(std::process::Child, String, u64, u64, u64, u32), String> {
         let out = format!("{}/{}-{}-{}-{}.json", work, prop, std::process::id(), w, gen);
         Command::new(&exe)
+            .env("VERIF_TIER_INTERNAL", tier)
             .args(["worker", prop, &base.to_string(), &from.to_string(), &cnt.to_string(), &out])
             .stdin(Stdio::null())
             .spawn()
